@@ -19,6 +19,47 @@ use std::panic::{catch_unwind, AssertUnwindSafe};
 
 type Deriv32<N, D> = Box<dyn FnMut(f32, &[N], &mut ()) -> Result<BVector<N, D>, UserError>>;
 
+/// The builder API as a user calls it on the concrete type (see `inst::AsCalled`).
+trait AsCalled32<N, D: Dimension>: Sized
+where
+    DefaultAllocator: Allocator<N, D>,
+{
+    type Iter;
+    fn c_new() -> Result<Self, IVPError>;
+    fn c_new_dyn(n: usize) -> Result<Self, IVPError>;
+    fn c_tol(self, v: f32) -> Result<Self, IVPError>;
+    fn c_max(self, v: f32) -> Result<Self, IVPError>;
+    fn c_min(self, v: f32) -> Result<Self, IVPError>;
+    fn c_start(self, v: f32) -> Result<Self, IVPError>;
+    fn c_end(self, v: f32) -> Result<Self, IVPError>;
+    fn c_ic_slice(self, y: &[N]) -> Result<Self, IVPError>;
+    fn c_deriv(self, f: Deriv32<N, D>) -> Self;
+    fn c_solve(self) -> Result<Self::Iter, IVPError>;
+}
+
+macro_rules! impl_as_called32 {
+    ($($T:ident),*; $N:ty, $D:ty) => {$(
+        impl AsCalled32<$N, $D> for $T<'static, $N, $D, (), Deriv32<$N, $D>> {
+            type Iter = bacon_sci::ivp::IVPIterator<$D, <Self as IVPSolver<'static, $D>>::Solver>;
+            fn c_new() -> Result<Self, IVPError> { Self::new() }
+            fn c_new_dyn(n: usize) -> Result<Self, IVPError> { Self::new_dyn(n) }
+            fn c_tol(self, v: f32) -> Result<Self, IVPError> { self.with_tolerance(v) }
+            fn c_max(self, v: f32) -> Result<Self, IVPError> { self.with_maximum_dt(v) }
+            fn c_min(self, v: f32) -> Result<Self, IVPError> { self.with_minimum_dt(v) }
+            fn c_start(self, v: f32) -> Result<Self, IVPError> { self.with_initial_time(v) }
+            fn c_end(self, v: f32) -> Result<Self, IVPError> { self.with_ending_time(v) }
+            fn c_ic_slice(self, y: &[$N]) -> Result<Self, IVPError> { self.with_initial_conditions_slice(y) }
+            fn c_deriv(self, f: Deriv32<$N, $D>) -> Self { self.with_derivative(f) }
+            fn c_solve(self) -> Result<Self::Iter, IVPError> { self.solve(()) }
+        }
+    )*};
+}
+
+impl_as_called32!(Euler, RungeKutta45, RungeKutta23, Adams5, Adams3, BDF6, BDF2; f32, Const<1>);
+impl_as_called32!(Euler, RungeKutta45, RungeKutta23, Adams5, Adams3, BDF6, BDF2; f32, Dyn);
+impl_as_called32!(Euler, RungeKutta45, RungeKutta23, Adams5, Adams3, BDF6, BDF2; Complex<f32>, Const<1>);
+impl_as_called32!(Euler, RungeKutta45, RungeKutta23, Adams5, Adams3, BDF6, BDF2; Complex<f32>, Dyn);
+
 /// One case of the probe: which builder, and the chain (constructor first, `solve` implied).
 #[derive(Clone, Debug, PartialEq)]
 pub struct Case32 {
@@ -108,15 +149,15 @@ where
     N: ComplexField<RealField = f32> + Copy + 'static,
     D: Dimension + 'static,
     DefaultAllocator: Allocator<N, D>,
-    S: IVPSolver<'static, D, Error = IVPError, Field = N, RealField = f32, UserData = (), Derivative = Deriv32<N, D>>,
+    S: IVPSolver<'static, D, Error = IVPError, Field = N, RealField = f32, UserData = (), Derivative = Deriv32<N, D>> + AsCalled32<N, D>,
 {
     let mut model = Model::new(case.kind.is_euler(), case.dynamic);
     let ctor = case.ops[0];
     let want = model.expect(&ctor);
     counts.0 += 1;
     let r = match ctor {
-        BOp::New => S::new(),
-        BOp::NewDyn(k) => S::new_dyn(k as usize),
+        BOp::New => S::c_new(),
+        BOp::NewDyn(k) => S::c_new_dyn(k as usize),
         _ => return None,
     };
     let mut b = match r {
@@ -151,13 +192,13 @@ where
         counts.0 += 1;
         let y0: Vec<N> = (0..n).map(|j| N::from_real(1.0 + j as f32)).collect();
         let r = match op {
-            BOp::Tol(v) => b.with_tolerance(v as f32),
-            BOp::Max(v) => b.with_maximum_dt(v as f32),
-            BOp::Min(v) => b.with_minimum_dt(v as f32),
-            BOp::Start(v) => b.with_initial_time(v as f32),
-            BOp::End(v) => b.with_ending_time(v as f32),
-            BOp::IcSlice | BOp::IcVec => b.with_initial_conditions_slice(&y0),
-            BOp::Deriv => Ok(b.with_derivative(Box::new(move |_t: f32, y: &[N], _d: &mut ()| {
+            BOp::Tol(v) => b.c_tol(v as f32),
+            BOp::Max(v) => b.c_max(v as f32),
+            BOp::Min(v) => b.c_min(v as f32),
+            BOp::Start(v) => b.c_start(v as f32),
+            BOp::End(v) => b.c_end(v as f32),
+            BOp::IcSlice | BOp::IcVec => b.c_ic_slice(&y0),
+            BOp::Deriv => Ok(b.c_deriv(Box::new(move |_t: f32, y: &[N], _d: &mut ()| {
                 Ok(BVector::<N, D>::from_column_slice_generic(D::from_usize(y.len()), U1::from_usize(1), y))
             }))),
             _ => return None,
@@ -179,7 +220,7 @@ where
     }
     let want = model.expect(&BOp::Solve);
     counts.0 += 1;
-    let got = match b.solve(()) {
+    let got = match b.c_solve() {
         Ok(_) => {
             counts.1 += 1;
             Outcome::Ok
@@ -229,6 +270,12 @@ pub fn eval_case(case: &Case32, complete: bool, counts: &mut (u64, u64)) -> Opti
     }
 }
 
+/// The chain as it is, and then completed: the first disagreement of either.
+pub fn eval_both(case: &Case32) -> Option<Mismatch32> {
+    let mut counts = (0, 0);
+    eval_case(case, false, &mut counts).or_else(|| eval_case(case, true, &mut counts))
+}
+
 pub struct Probe32Result {
     pub chains: u64,
     pub calls: u64,
@@ -254,11 +301,17 @@ pub fn run_unit(kind: Kind, dynamic: bool, complex: bool, maxlen: usize) -> Prob
         ops.extend(idx.iter().map(|i| a[*i]));
         res.chains += 1;
         let case = Case32 { kind, dynamic, complex, ops };
+        // the chain as it is (solve() on the prefix: MissingParameters unless complete) ...
+        res.chains += 1;
+        if let Some(m) = eval_case(&case, false, &mut counts) {
+            res.mismatches.push(m);
+        }
+        // ... and completed with canonical values, so that solve() builds
         if let Some(m) = eval_case(&case, true, &mut counts) {
             res.mismatches.push(m);
-            if res.mismatches.len() >= 4 {
-                break;
-            }
+        }
+        if res.mismatches.len() >= 4 {
+            break;
         }
         // next index vector (all lengths 0..=maxlen, lexicographic)
         if idx.len() < maxlen {
@@ -357,8 +410,7 @@ pub fn minimise32(m: &Mismatch32) -> Mismatch32 {
     while j < cur.case.ops.len() {
         let mut c = cur.case.clone();
         c.ops.remove(j);
-        let mut counts = (0, 0);
-        match eval_case(&c, true, &mut counts) {
+        match eval_both(&c) {
             Some(m2) => cur = m2,
             None => j += 1,
         }
